@@ -64,7 +64,7 @@ func (x *Exec) strEqual(st *State, a, b *Term) *Term {
 		return BoolLit(la == lb)
 	}
 	e := strEq(a, b)
-	if e.op == "str.eq" {
+	if e.op == "gs.eq" {
 		key := [2]int{e.id, -1}
 		if !x.typed[key] {
 			x.typed[key] = true
@@ -116,8 +116,8 @@ func (x *Exec) stringToRunes(st *State, s *Term, rt types.Type) *Val {
 		return &Val{T: mkSlice(ref, IntLit(0), IntLit(int64(n))), Typ: rt}
 	}
 	x.trusted["A-UTF8"] = true
-	arr := UF("str.runes", asort, s)
-	cnt := UF("str.runecount", SInt, s)
+	arr := UF("gs.runes", asort, s)
+	cnt := UF("gs.runecount", SInt, s)
 	x.ctx.assumeGlobal(st, And(Ge(cnt, IntLit(0)), Le(cnt, strLen(s)), Implies(Gt(strLen(s), IntLit(0)), Gt(cnt, IntLit(0))),
 		Le(strLen(s), Mul(IntLit(4), cnt))))
 	x.ctx.hwrite(st, name, asort, ref, arr)
